@@ -739,7 +739,8 @@ func (g *generator) newCase(prop string, i int) *caseGen {
 		return c
 	case "C15":
 		c := g.baseCase(g.pick(allKinds))
-		c.plan = g.mixPlan(c.cfg.Kind, g.length(), 90, 10, nil)
+		// every reachable state: successful loads are mutators too (C15 quantifies over all histories)
+		c.plan = g.mixPlan(c.cfg.Kind, g.length(), 80, 10, []wname{{"FromJSON:valid", 8}, {"FromJSON:malformed", 2}})
 		return c
 	case "C16":
 		c := g.baseCase(g.pick(allKinds))
